@@ -8,6 +8,7 @@ import Driver.OpsAlgebra
 import Driver.OpsTensor
 import Driver.OpsLearn
 import Driver.OpsSched
+import Driver.OpsXpc
 /-
 Line-protocol driver: one JSON object per input line, one answer line per input line.
 Run with `lake env lean --run Driver/Main.lean < ops.jsonl`.
@@ -74,7 +75,8 @@ def handle (st : St) (j : Json) : Except String (St × String) := do
       handleAlgebra o j,
       handleTensor o j,
       handleLearn o j,
-      handleSched st.net st.root o j ]
+      handleSched st.net st.root o j,
+      handleXpc o j ]
     match exts.findSome? id with
     | some r => do let a ← r; pure (st, a)
     | none => .error s!"unknown op {o}"
